@@ -759,6 +759,18 @@ def i9(prog: Program, chk: Check) -> None:
             f"the package", len(units) >= 15, "" if len(units) >= 15 else "the module shrank")
 
 
+def i10(prog: Program, chk: Check) -> None:
+    chk.rule("I10", "PT-TEBD attaches a process tensor to a site the way every other consumer "
+             "does: in PtTebdBackend.apply_process_tensors axis 0 of the MPO tensor meets the "
+             "current bond leg, axis 1 becomes the new one, axis 2 (system input) meets the "
+             "site's physical leg and axis 3 (system output) becomes the new physical leg "
+             "(leg roles inferred from what each axis is connected to / stored as; table shared "
+             "with C03 M1) - exchanging 2 and 3 applies the transposed local map, invisible for "
+             "PT-TEMPO tensors, which are symmetric under that exchange", floor=1)
+    from rules import c03
+    c03.leg_role_table(prog, chk, "I10", ["backends.pt_tebd_backend:PtTebdBackend.apply_process_tensors"])
+
+
 def run(prog: Program, chk: Check) -> None:
     chk.explanation = (
         "Decides two clauses of C10: 'all execution modes are usable' as far as name resolution "
@@ -782,3 +794,4 @@ def run(prog: Program, chk: Check) -> None:
     chk.call(i7, prog, chk)
     chk.call(i8, prog, chk)
     chk.call(i9, prog, chk)
+    chk.call(i10, prog, chk)
